@@ -382,6 +382,12 @@ def check_convert(ck):
     facts = must_facts(cfg)
     cats = {"moment": 0, "multi": 0, "future": 0, "awaitable": 0, "null": 0, "bad": 0}
     LD = "isinstance(%s, (list, dict))" % p
+    # the same fact whatever the order of the classes in the tuple
+    for nd_ in cfg.stmt_nodes(lambda nd_: nd_.kind == "test"):
+        t_ = nd_.ast
+        if isinstance(t_, ast.Call) and q.dotted(t_.func) == "isinstance" and len(t_.args) == 2 and q.dotted(t_.args[0]) == p and isinstance(t_.args[1], ast.Tuple) \
+                and {q.dotted(e_) for e_ in t_.args[1].elts} == {"list", "dict"}:
+            LD = q.unparse(t_)
     for nd in cfg.stmt_nodes(lambda nd: nd.kind == "stmt" and isinstance(nd.ast, (ast.Return, ast.Raise))):
         f = facts[nd.id]
         if isinstance(nd.ast, ast.Raise):
